@@ -9,5 +9,6 @@ Separate Extraction
   Model.diff_cached Model.stash_push_staged Model.checkout_b Model.checkout_ref Model.git_add
   Model.git_commit Model.stash_pop_index Model.git_auto_commit Model.git_auto_stage
   Model.git_checkout_ref Model.handle_git_automation Model.dispatch Model.user_view
+  Model.git_commit_only Model.git_auto_commit_only Model.git_checkout_ref_plain Model.Known_class
   Model.Known_staged_and_unstaged_same_path Model.managed Model.ignored Model.head_tree
   Model.tget Model.tset Model.tree_eqb Model.delta_managed Model.apply_delta.
